@@ -113,6 +113,7 @@ class World:
 
     def __init__(self, scenario, ledger):
         self.sc = scenario
+        self.nmax = scenario.get('nmax', NMAX)
         self.ledger = ledger
         self.wallet = Wallet()
         self.accounts = []
@@ -129,7 +130,7 @@ class World:
             self.accounts.append(acc)
             for ch, mgr in ((0, acc.receiving), (1, acc.change)):
                 c = 2 * k + ch
-                for n in range(NMAX):
+                for n in range(self.nmax):
                     s = mgr.public_key.child(n).address
                     self.addr_of[('w', c, n)] = s
                     self.id_of_addr[s] = ['w', c, n]
@@ -264,6 +265,7 @@ class FakeNetwork:
         self.on_status = _Stream()
         self.subscribed = []
         self.calls = {}            # address -> number of get_history calls so far
+        self.sub_calls = 0
 
     async def _delay(self):
         for _ in range(self.r.delay_rng.choice((0, 0, 1, 1, 2, 3, 5))):
@@ -303,7 +305,12 @@ class FakeNetwork:
         return {}
 
     async def subscribe_address(self, *addresses):
-        await self._delay()
+        # subscription and statuses take effect when the request arrives; the answer may be held back (latency)
+        self.r.activity += 1
+        self.sub_calls += 1
+        gate = self.r.gates.get(('sub', self.sub_calls))
+        if gate is None:
+            await self._delay()
         out = []
         for a in addresses:
             if a not in self.subscribed:
@@ -312,7 +319,57 @@ class FakeNetwork:
             self.r.remember_status(a, st)
             self.r.last_notified[a] = st
             out.append(st)
+            ix = self.r.sub_call_of_task.get(asyncio.current_task())
+            if ix is not None:
+                self.r.sub_plan[ix]['status'].append([self.r.world.id_of_addr[a], self.r.status_hist[st]])
+        if gate is not None:
+            self.r.count_held += 1
+            await gate.wait()
+            await self._delay()
+        self.r.activity += 1
         return out
+
+
+class FakeSession:
+    """Stands in for the ClientSession beneath the REAL lbry.wallet.network.Network: only the JSON-RPC round trip is
+    faked (dispatched to the scripted server); retriable_call, rpc, subscribe_address, the on_status stream are
+    the real code.  A scheduled fault makes one request time out / lose the connection once before it is sent."""
+    server = ('fake-hub', 50001)
+    server_address_and_port = ('fake-hub', 50001)
+
+    def __init__(self, runner, server):
+        self.r, self.srv = runner, server
+        self.calls = {'history': 0, 'batch': 0}
+
+    def is_closing(self):
+        return False
+
+    def abort(self):
+        pass
+
+    async def send_request(self, method, args):
+        r = self.r
+        short = {'blockchain.address.get_history': 'history', 'blockchain.transaction.get_batch': 'batch'}.get(method)
+        if short is not None:
+            self.calls[short] += 1
+            key = (short, self.calls[short])
+            kind = r.faults.pop(key, None)
+            if kind is None and r.fault_p and r.delay_rng.random() < r.fault_p:
+                kind = r.delay_rng.choice(('timeout', 'connection'))
+            if kind is not None:
+                r.activity += 1
+                r.faults_injected += 1
+                await self.srv._delay()
+                raise asyncio.TimeoutError() if kind == 'timeout' else ConnectionError('connection lost')
+        if method == 'blockchain.address.get_history':
+            return await self.srv.get_history(args[0])
+        if method == 'blockchain.transaction.get_batch':
+            return await self.srv.get_transaction_batch(args)
+        if method == 'blockchain.address.subscribe':
+            return await self.srv.subscribe_address(*args)
+        if method == 'blockchain.transaction.get_merkle':
+            return {}
+        raise RuntimeError(f'unexpected request {method}')
 
 
 class Runner:
@@ -329,6 +386,12 @@ class Runner:
         self.delay_rng = random.Random(scenario.get('delay_seed', 0))
         self.checkpoints = []
         self.gates = {}                      # (address, k) -> Event: the k-th get_history answer for address is held
+        self.faults = {}                     # ('history'|'batch', k) -> 'timeout'|'connection': that request fails once
+        self.fault_p = scenario.get('fault_p', 0) if scenario.get('real_network') else 0
+        self.faults_injected = 0
+        self.sub_plan = []                   # (addresses, statuses) of every subscribe_addresses call
+        self.sub_tasks = []                  # (address, status) of every update_history it started
+        self.sub_call_of_task = {}
         self.activity = 0
         self.count_held = 0
 
@@ -363,8 +426,20 @@ class Runner:
             elif kind == 'confirm':
                 w.heights[act[1]] = act[2]
                 self.log('server', w.model_server())
+            elif kind == 'fault':              # ['fault', 'history'|'batch', k-th request from now, 'timeout'|'connection']
+                base = self.session.calls[act[1]] if self.sc.get('real_network') else 0
+                self.faults[(act[1], base + act[2])] = act[3]
+            elif kind == 'hold_sub':           # the k-th subscribe_address answer from now on is held back
+                self.gates[('sub', self.net.sub_calls + act[1])] = asyncio.Event()
+            elif kind == 'release_sub':
+                for key, ev in sorted((x for x in self.gates.items() if x[0][0] == 'sub'), key=lambda x: x[0][1]):
+                    if not ev.is_set():
+                        ev.set()
+                        break
             elif kind == 'notify':
                 a = w.addr_of[('w', 2 * act[1][1] + act[1][2], act[1][3])]
+                if a not in self.net.subscribed:       # a server only notifies subscribed addresses
+                    continue
                 st = w.status(a)
                 self.remember_status(a, st)
                 self.last_notified[a] = st
@@ -374,7 +449,7 @@ class Runner:
                 self.gates[(a, self.net.calls.get(a, 0) + act[2])] = asyncio.Event()
             elif kind == 'release':
                 a = w.addr_of[('w', 2 * act[1][1] + act[1][2], act[1][3])]
-                for (b, k), ev in sorted(self.gates.items(), key=lambda x: x[0][1]):
+                for (b, k), ev in sorted((x for x in self.gates.items() if x[0][0] != 'sub'), key=lambda x: x[0][1]):
                     if b == a and not ev.is_set() and (len(act) < 3 or act[2] == 'next'):
                         ev.set()
                         break
@@ -396,8 +471,25 @@ class Runner:
         real_sethist = db.set_address_history
         real_get_addresses = db.get_addresses
 
+        real_subscribe = ledger.subscribe_addresses
+
+        async def subscribe_addresses(address_manager, addresses, batch_size=1000):
+            ix = len(me.sub_plan)
+            me.sub_plan.append({'addrs': [me.world.id_of_addr[a] for a in addresses], 'status': []})
+            task = asyncio.current_task()
+            prev = me.sub_call_of_task.get(task)
+            me.sub_call_of_task[task] = ix
+            try:
+                return await real_subscribe(address_manager, addresses, batch_size)
+            finally:
+                me.sub_call_of_task[task] = prev
+
+        ledger.subscribe_addresses = subscribe_addresses
+
         async def update_history(address, remote_status, address_manager=None, reattempt_update=True):
             me.task_info[asyncio.current_task()] = (address, remote_status)
+            if address_manager is not None:
+                me.sub_tasks.append([me.world.id_of_addr[address], me.status_hist.get(remote_status, 'unknown-status')])
             me.activity += 1
             try:
                 return await real_update(address, remote_status, address_manager, reattempt_update)
@@ -459,14 +551,24 @@ class Runner:
         raise RuntimeError('no quiescence')
 
     def notify(self, address, status):
-        self.ledger.process_status_update((address, status))
+        if self.sc.get('real_network'):
+            # the way a server notification reaches the ledger in production: the subscription stream of Network
+            self.ledger.network.subscription_controllers['blockchain.address.subscribe'].add((address, status))
+        else:
+            self.ledger.process_status_update((address, status))
 
     async def run(self, on_checkpoint):
         self.dir = tempfile.mkdtemp(prefix='c09-')
         try:
             self.net = FakeNetwork(self)
-            self.ledger = Ledger({'db': Database(os.path.join(self.dir, 'wallet.db')),
-                                  'headers': Headers(':memory:'), 'network': self.net})
+            if self.sc.get('real_network'):
+                self.ledger = Ledger({'db': Database(os.path.join(self.dir, 'wallet.db')), 'headers': Headers(':memory:')})
+                real = self.ledger.network                 # lbry.wallet.network.Network(ledger), unmodified
+                real.running = True
+                real.client = self.session = FakeSession(self, self.net)
+            else:
+                self.ledger = Ledger({'db': Database(os.path.join(self.dir, 'wallet.db')),
+                                      'headers': Headers(':memory:'), 'network': self.net})
             self.ledger.headers.checkpoints = {}       # no checkpoint file to build; nothing is verified (C08)
             await self.ledger.db.open()
             await self.ledger.headers.open()
@@ -581,13 +683,13 @@ def expected(world):
     for c, g in w.gaps:
         last = -1
         n = 0
-        while n <= last + g and n < NMAX:
+        while n <= last + g and n < w.nmax:
             if w.history(w.addr_of[('w', c, n)]):
                 last = n
             n += 1
         known[c] = last + 1 + g
         out['chains'].append([c, known[c], [w.model_hist(w.history(w.addr_of[('w', c, n)]))
-                                            for n in range(min(known[c], NMAX))]])
+                                            for n in range(min(known[c], w.nmax))]])
     for k in range(len(w.accounts)):
         cs = (2 * k, 2 * k + 1)
         utx = []
@@ -610,26 +712,36 @@ def expected(world):
 
 
 def monitor(world, obs, errors):
+    """the property's clauses at a quiescent point; every failing clause is named (at most four)"""
     exp = expected(world)
+    bad = []
     if errors:
-        return f'update_history raised: {errors[0]}'
+        bad.append(f'an update_history task died: {errors[0]}')
     got = {c: (k, h, contiguous) for c, k, h, contiguous in obs['chains']}
     for c, k, hists in exp['chains']:
         gk, gh, contiguous = got.get(c, (0, [], True))
         if not contiguous:
-            return f'chain {c}: address indexes are not contiguous'
+            bad.append(f'chain {c}: address indexes are not contiguous')
+            continue
         if gk < k:
-            return f'chain {c}: {gk} addresses generated, the gap needs {k}'
-        for n in range(min(k, NMAX)):
-            if gh[n] != hists[n]:
-                return f'address (chain {c}, n {n}): stored history {gh[n]} != server history {hists[n]}'
+            bad.append(f'gap not maintained: chain {c} has {gk} addresses, {k} are needed to keep the gap of unused '
+                       f'addresses behind the last used one')
+        for n in range(min(k, world.nmax)):
+            if n >= gk:
+                if hists[n]:
+                    bad.append(f'funds within the gap limit not found: address (chain {c}, n {n}) has server history '
+                               f'{hists[n]} but was never generated')
+            elif gh[n] != hists[n]:
+                bad.append(f'address (chain {c}, n {n}): stored history {gh[n]} != server history {hists[n]}')
     for k, (e, g) in enumerate(zip(exp['accounts'], obs['accounts'])):
         for key in ('balance', 'total', 'claims', 'supports', 'utxos', 'spendable'):
             if e[key] != g[key]:
-                return f'account {k}: {key} is {g[key]}, the server state gives {e[key]}'
-        if g['available'] != e['balance'] or g['reserved'] != e['total'] - e['balance']:
-            return f'account {k}: detailed balance available/reserved {g["available"]}/{g["reserved"]} inconsistent'
-    return None
+                bad.append(f'account {k}: {key} is {g[key]}, the server state gives {e[key]}')
+                break
+        if g['available'] != g['balance'] or g['reserved'] != g['total'] - g['balance'] \
+                or g['reserved'] != g['claims'] + g['supports']:
+            bad.append(f'account {k}: detailed balance available/reserved {g["available"]}/{g["reserved"]} inconsistent')
+    return '; '.join(bad[:5]) if bad else None
 
 
 # ------------------------------------------------------------------------------------------------
@@ -781,6 +893,66 @@ def gated_scenario(rng, demo=False):
             'stages': [{'new': [], 'order_seed': 1}, {'actions': actions}]}
 
 
+def gap_race_scenario(rng, demo=False):
+    """two addresses of one chain are paid; the update of the lower one is inside ensure_address_gap (its
+    subscribe_address answer held back, generator lock held) while the update of the higher one stores its history
+    and asks for the gap as well; afterwards an address inside the gap that must exist by then is paid."""
+    g = 3 if demo else rng.choice((2, 3, 4))
+    ch = 0 if demo else rng.randrange(2)
+    gaps = [g, 1] if ch == 0 else [1, g]
+    n1 = 0 if demo else rng.randrange(0, g - 1)
+    n2 = g - 1 if demo else rng.randrange(n1 + 1, g)
+    def w(n):
+        return ['w', 0, ch, n]
+    def pay(n, k, amt):
+        return ['add', {'ins': [['ext', 600 + k]], 'outs': [{'kind': 'p2pkh', 'amt': amt, 'to': w(n)}], 'height': 20 + k}]
+    held = demo or rng.random() < 0.8
+    actions = [['hold_sub', 1]] if held else []
+    together = (not demo) and rng.random() < 0.3
+    if together:
+        actions += [pay(n1, 0, 100), pay(n2, 1, 200), ['notify', w(n1)], ['notify', w(n2)], ['pause']]
+    else:
+        actions += [pay(n1, 0, 100), ['notify', w(n1)], ['pause'], pay(n2, 1, 200), ['notify', w(n2)], ['pause']]
+    if held:
+        actions += [['release_sub'], ['pause']]
+    n3 = n2 + g if demo else rng.randrange(n2 + 1, n2 + g + 1)
+    actions += [pay(n3, 2, 400), ['notify', w(n3)], ['pause']]
+    return {'accounts': [{'seed_ix': 0, 'gaps': gaps}], 'delay_seed': 0 if demo else rng.randrange(10 ** 6),
+            'stages': [{'new': [], 'order_seed': 1}, {'actions': actions}]}
+
+
+def fault_scenario(rng, demo=False):
+    """REAL Network object (retriable_call, rpc, subscribe_address, on_status stream) over a fake client session; one
+    chosen get_history / get_transaction_batch request of an update times out or loses the connection once and
+    succeeds when retried; no further notification for that address follows."""
+    g = 3
+    def w(n, ch=0):
+        return ['w', 0, ch, n]
+    n1 = 0 if demo else rng.randrange(g)
+    what = 'history' if demo else rng.choice(('history', 'batch', 'history', 'batch'))
+    kind = 'timeout' if demo else rng.choice(('timeout', 'connection'))
+    actions = [['add', {'ins': [['ext', 700]], 'outs': [{'kind': 'p2pkh', 'amt': 1000, 'to': w(n1)}], 'height': 30}],
+               ['notify', w(n1)], ['pause'],
+               # the spend: address n1 must lose the output, the change address and n1+g must be found
+               ['fault', what, 1, kind]]
+    if not demo and rng.random() < 0.5:
+        actions.append(['fault', 'batch' if what == 'history' else 'history', rng.choice((1, 2)), rng.choice(('timeout', 'connection'))])
+    actions += [['add', {'ins': [[0, 0]], 'outs': [{'kind': 'p2pkh', 'amt': 600, 'to': w(n1 + g)},
+                                                   {'kind': 'p2pkh', 'amt': 300, 'to': w(0, 1)}], 'height': 31}],
+                ['notify', w(n1)], ['pause'], ['notify', w(n1 + g)], ['notify', w(0, 1)], ['pause']]
+    return {'accounts': [{'seed_ix': 0, 'gaps': [g, 1]}], 'delay_seed': 0 if demo else rng.randrange(10 ** 6),
+            'real_network': True, 'stages': [{'new': [], 'order_seed': 1}, {'actions': actions}]}
+
+
+def big_subscribe_scenario(gap=1030, paid=(1010,)):
+    """one subscribe_addresses call with more than one batch of 1000 addresses: a receiving gap above 1000 and
+    funds already sitting on addresses with index >= 1000 when the wallet subscribes (within the gap limit)"""
+    new = [{'ins': [['ext', 800 + i]], 'outs': [{'kind': 'p2pkh', 'amt': 1000 + i, 'to': ['w', 0, 0, n]}], 'height': 40 + i}
+           for i, n in enumerate(paid)]
+    return {'accounts': [{'seed_ix': 0, 'gaps': [gap, 1]}], 'delay_seed': 5, 'nmax': max(paid) + gap + 2, 'real_network': True,
+            'stages': [{'new': new, 'order_seed': 1, 'yield_p': 0.0}]}
+
+
 # ------------------------------------------------------------------------------------------------
 # one case
 # ------------------------------------------------------------------------------------------------
@@ -830,6 +1002,9 @@ def run_case(run, model, scenario, label):
         loop.close()
     case = {'label': label, 'scenario': scenario}
     ntx = sum(len(s.get('new', [])) + sum(1 for a in s.get('actions', []) if a[0] == 'add') for s in scenario['stages'])
+    if scenario.get('real_network'):
+        run.count('real_Network_object')
+        run.count('requests_failed_once', runner.faults_injected)
     if any(s.get('actions') for s in scenario['stages']):
         run.count('gated_schedules')
         run.count('held_answers', runner.count_held)
@@ -851,7 +1026,7 @@ def run_case(run, model, scenario, label):
         if bad:
             sig = {'kind': 'non_template_output_script'} if nontemplate else {'kind': 'monitor', 'label': label, 'stage': si}
             if gated:
-                bad += ' (several notifications for one address while get_history answers were held back: see actions)'
+                bad += ' (explicit schedule of notifications, held-back answers and failing requests: see actions)'
             run.violation(case, f'stage {si}: {bad}', signature=sig)
             return
         m = model.call('run', gaps=runner.world.gaps, ops=ops, accounts=[[2 * k, 2 * k + 1] for k in range(n_acc)])
@@ -869,6 +1044,15 @@ def run_case(run, model, scenario, label):
                 run.disagreement('C09.model_spec_utxos', case, None, {'utxos': a['utxos'], 'spec': a['spec_utxos']})
                 return
         if not run.compare('C09.sync_state', {'label': label, 'stage': si, 'scenario': scenario}, canon_impl(obs), canon_model(m)):
+            return
+    if results and not crash:
+        plan = []
+        for call in runner.sub_plan:
+            if len(call['status']) == len(call['addrs']):          # the call completed
+                plan += model.call('subscribe_plan', b=1000, addrs=call['addrs'], status=call['status'])
+        started = runner.sub_tasks[:len(plan)] if len(runner.sub_tasks) > len(plan) else runner.sub_tasks
+        if not run.compare('C09.subscribe_plan', {'label': label, 'scenario': scenario},
+                           sorted(map(json.dumps, runner.sub_tasks)), sorted(map(json.dumps, plan))):
             return
     if results:
         trace = results[-1][3]
@@ -903,7 +1087,11 @@ def main(run):
                 'delivers the status notifications in a shuffled order with duplicates, stale copies, re-subscription '
                 'of all addresses and optional overlap with the next server change; network calls yield 0-5 times; a '
                 'delayed-answer family sends 3-4 notifications for ONE address while chosen get_history answers are '
-                'held back and released in a chosen order. '
+                'held back and released in a chosen order; a subscribe-latency family holds the subscribe_address answer '
+                'of one gap top-up while a second address of the chain completes its update, then pays inside the gap; 40% of '
+                'the random scenarios and a fault family run through the REAL lbry.wallet.network.Network (only the client '
+                'session is faked) with single requests timing out / losing the connection once; one case subscribes 1030+ '
+                'addresses in one call (two batches) with funds on address 1010. '
                 'The real interleaving of begin/save/sethist/gap steps is recorded and replayed in the extracted model; '
                 'observables compared at every quiescent point. distinct = distinct scenario; non-trivial = at least '
                 'one transaction.')
@@ -921,10 +1109,28 @@ def main(run):
     run_case(run, model, gated_scenario(rng, demo=True), 'gated:demo')
     for i in range(vlib.scaled(run.tier, 14, 300)):
         run_case(run, model, gated_scenario(rng), f'gated:{i}')
+    # subscribe latency: a gap top-up holds the generator lock while a second address of the chain completes
+    run_case(run, model, gap_race_scenario(rng, demo=True), 'gaprace:demo')
+    for i in range(vlib.scaled(run.tier, 10, 200)):
+        run_case(run, model, gap_race_scenario(rng), f'gaprace:{i}')
+    # transient request failures under the REAL Network.retriable_call
+    run_case(run, model, fault_scenario(rng, demo=True), 'fault:demo')
+    for i in range(vlib.scaled(run.tier, 8, 150)):
+        run_case(run, model, fault_scenario(rng), f'fault:{i}')
+    # more than one batch of 1000 addresses in one subscribe_addresses call (the batch size is a default argument
+    # bound at definition time, so the boundary cannot be lowered: the case is really that large)
+    run_case(run, model, big_subscribe_scenario(), 'bigsub:1030')
+    if run.tier == 'thorough':
+        run_case(run, model, big_subscribe_scenario(2100, (999, 1000, 2050)), 'bigsub:2100')
     n = vlib.scaled(run.tier, 70, 3000)
     for i in range(n):
         size = rng.choice((3, 6, 10, 16, 24, 30))
-        run_case(run, model, gen_scenario(rng, size), f'random:{i}')
+        sc = gen_scenario(rng, size)
+        if rng.random() < 0.4:
+            # same scenario through the real Network object, each history / batch request failing once with p = 0.15
+            sc['real_network'] = True
+            sc['fault_p'] = rng.choice((0.0, 0.15, 0.15))
+        run_case(run, model, sc, f'random:{i}')
     run.partial = ['at most one batch (<= 100 transactions) per address sync', 'reorg / rewind not modelled',
                    'is_verified / merkle proofs not modelled (C08)']
     model.close()
